@@ -67,3 +67,23 @@ func verifPerms(n int) [][]int {
 	}
 	return out
 }
+
+// VerifC17_SingleValue: the same property for one key with one value; cheap
+// enough to leave every byte position of the value to the solver even when the
+// code under test scans the value byte by byte.
+func VerifC17_SingleValue() {
+	keys := []string{"protocol", "host", "path", "username", "password", "wwwauth[]", "state[]"}
+	k := keys[verifChoose("key", len(keys))]
+	protect := verifNondetBool("protect")
+	v := verifNondetString("val")
+	verifAssume(len(v) <= verifBound("single.value.len", 5, 7))
+	bad := verifOr(strings.Contains(v, "\n"), verifOr(strings.Contains(v, "\x00"), verifAnd(protect, strings.Contains(v, "\r"))))
+	buf, err := Creds{k: []string{v}}.buffer(protect)
+	if bad {
+		verifCover("single-refused")
+		verifAssert(err != nil && buf == nil, "a value with LF, NUL (or CR under protection) is refused wherever the byte sits")
+		return
+	}
+	verifCover("single-accepted")
+	verifAssert(err == nil && buf.String() == "capability[]=authtype\ncapability[]=state\n"+k+"="+v+"\n", "a clean value is passed on exactly")
+}
